@@ -77,6 +77,7 @@ bool LoadScenario(const js::J& j, Scenario* s, string* err) {
     else if (k == "mkdir") op.kind = Op::kMkdir;
     else if (k == "rmlog") op.kind = Op::kRmLogRecord;
     else if (k == "duplog") op.kind = Op::kDupLogRecord;
+    else if (k == "dupdeps") op.kind = Op::kDupDepsRecord;
     else if (k == "variant") { op.kind = Op::kVariant; op.variant = (int)oj["to"].num(); }
     else if (k == "ninja") {
       op.kind = Op::kNinja;
